@@ -89,14 +89,20 @@ def hashlm_class():
 
         def update_input(self, prev, hist):
             self.counts["update_input"] += 1
-            if "h" in prev:
+            # `rebuild`: the start state is derived from the static input on EVERY call (idempotent on the initial
+            # dictionary, which is all the documentation asks); on a state in mid-search it resets the model
+            rebuild = getattr(self, "rebuild", False)
+            if "h" in prev and not rebuild:
                 return prev
             rows = hist.size(1)
             if "cond" in prev:
                 cond = prev["cond"].to(torch.long)
             else:
                 cond = torch.zeros(rows, dtype=torch.long)
-            return {"h": (cond * 40503 + 12345) % MOD, "n": torch.zeros_like(cond)}
+            out = {"h": (cond * 40503 + 12345) % MOD, "n": torch.zeros_like(cond)}
+            if rebuild:
+                out["cond"] = cond
+            return out
 
         def calc_idx_log_probs(self, hist, prev, idx):
             h, n = prev["h"], prev["n"]
@@ -110,7 +116,10 @@ def hashlm_class():
                 tok = hist.gather(0, (idx - 1).clamp(min=0, max=hist.size(0) - 1).unsqueeze(0)).squeeze(0)
                 tok = torch.where(idx == 0, sos, tok)
             h1 = (h * MUL + tok + 7) % MOD
-            return self.table[h1 % TABLE_ROWS], {"h": h1, "n": n + 1}
+            nxt = {"h": h1, "n": n + 1}
+            if "cond" in prev:
+                nxt["cond"] = prev["cond"]
+            return self.table[h1 % TABLE_ROWS], nxt
 
         def extract_by_src(self, prev, src):
             self.counts["extract_by_src"] += 1
